@@ -193,4 +193,67 @@ theorem consistent_setNode {s : St} (hc : Consistent s) {L : Layer} (hup : s.dis
       exact ⟨m', rfl, by rw [hkids]; exact hn'⟩
     · rw [if_neg hq2]; exact ⟨pm', hpm', hn'⟩
 
+/-- every ancestor of a node of the forest is in the forest -/
+theorem mem_suffix_closed {s : St} (hc : Consistent s) : ∀ (l : List Name) (q : Path) (m : MNode),
+    s.mem (l ++ q) = some m → ∃ m', s.mem q = some m'
+  | [], _, m, h => ⟨m, h⟩
+  | c :: l, q, m, h => by
+    obtain ⟨pm, hpm, _⟩ := hc.reach c (l ++ q) m h
+    exact mem_suffix_closed hc l q pm hpm
+
+/-- a node that is in the upper layer has its parent node in the upper layer -/
+theorem parent_inUpper {s : St} (hc : Consistent s) {n : Name} {pp : Path} {m pm : MNode}
+    (hm : s.mem (n :: pp) = some m) (hpm : s.mem pp = some pm) (hmu : m.inUpper = true) :
+    pm.inUpper = true := by
+  -- 0 is among the kept indices of the child, hence of the parent, hence the parent's first
+  have h0 : 0 ∈ expIdx s.disk (n :: pp) := by
+    rcases realsOK_forms hc.roots (hc.reals _ m hm) with h | ⟨i, hi, hi0, _⟩
+    · cases he : expIdx s.disk (n :: pp) with
+      | nil => rw [he] at h; simp [MNode.inUpper, h] at hmu
+      | cons i0 t0 =>
+        have : m.inUpper = (i0 == 0) := by simp [MNode.inUpper, h, he, realOf]
+        rw [hmu] at this
+        have hi0 : i0 = 0 := by simpa using this.symm
+        simp [hi0]
+    · rw [hi, hi0]; simp
+  have hsub : (expIdx s.disk (n :: pp)).Sublist (expIdx s.disk pp) := by
+    rw [expIdx]
+    exact ((cutW_sublist s.disk _ _).trans List.filter_sublist).trans (dirsIdx_sublist s.disk pp _)
+  have h0p : 0 ∈ expIdx s.disk pp := hsub.subset h0
+  have hhead : ∃ t, expIdx s.disk pp = 0 :: t := by
+    cases he : expIdx s.disk pp with
+    | nil => rw [he] at h0p; cases h0p
+    | cons i t =>
+      rw [he] at h0p
+      simp only [List.mem_cons] at h0p
+      rcases h0p with h | h
+      · exact ⟨t, by rw [← h]⟩
+      · have := (List.pairwise_cons.1 (he ▸ expIdx_sorted s.disk pp)).1 0 h
+        omega
+  obtain ⟨t, ht⟩ := hhead
+  rcases realsOK_forms hc.roots (hc.reals _ pm hpm) with h | ⟨i, _, hi0, h⟩
+  · simp [MNode.inUpper, h, ht, realOf]
+  · simp [MNode.inUpper, h, hi0, staleOf, realOf]
+
+/-- every ancestor of a node that is in the upper layer is in the upper layer -/
+theorem ancestors_inUpper {s : St} (hc : Consistent s) : ∀ (l : List Name) (q : Path) (m mq : MNode),
+    s.mem (l ++ q) = some m → m.inUpper = true → s.mem q = some mq → mq.inUpper = true
+  | [], q, m, mq, hm, hmu, hmq => by
+    simp only [List.nil_append] at hm
+    rw [hm] at hmq; cases hmq; exact hmu
+  | c :: l, q, m, mq, hm, hmu, hmq => by
+    obtain ⟨pm, hpm, _⟩ := hc.reach c (l ++ q) m hm
+    exact ancestors_inUpper hc l q pm mq hpm (parent_inUpper hc hm hpm hmu) hmq
+
+/-- in a tree every ancestor of an existing entry is a directory -/
+theorem tree_ancestors_dir {L : Layer} (ht : TreeOK L) : ∀ (l : List Name) (q : Path),
+    (L (l ++ q)).isAbsent = false → l ≠ [] → (L q).isDir = true
+  | [], _, _, h => absurd rfl h
+  | [c], q, ha, _ => ht c q ha
+  | c :: c' :: l, q, ha, _ => by
+    have h1 : (L (c' :: l ++ q)).isDir = true := ht c (c' :: l ++ q) ha
+    have h2 : (L (c' :: l ++ q)).isAbsent = false := by
+      cases hx : L (c' :: l ++ q) <;> simp_all [Node.isDir, Node.isAbsent]
+    exact tree_ancestors_dir ht (c' :: l) q h2 (by simp)
+
 end Fbr.Ovl
